@@ -11,6 +11,9 @@ prop(
         dict(run="^TestPropRangeQuery$",
              quick=dict(checks=1600, shards=8, timeout=600),
              thorough=dict(checks=64000, shards=16, timeout=3600)),
+        dict(run="^TestPropRangeFailover$",
+             quick=dict(checks=640, shards=8, timeout=600),
+             thorough=dict(checks=24000, shards=16, timeout=3600)),
         dict(run="^TestPropMergeOrder$",
              quick=dict(checks=1600, shards=8, timeout=600),
              thorough=dict(checks=48000, shards=16, timeout=3600)),
@@ -24,7 +27,11 @@ prop(
          "slice (1-3 short islands: nothing continues across a boundary, no two ranges of the result can merge). The http layer then asks the SAME "
          "client again (cache alive) 0-2 times - the same window (always for confined cases) or one shifted by 1-3 steps or a whole slice - with "
          "per-slice drawn response delays; every answer is judged by the same unsliced oracle for its own window. The real FailoverGroup.RangeQuery runs against a fake query_range that answers "
-         "each slice from the bitmap and logs (start,end,step). Non-trivial: the request log shows >=2 slices and, at some slice boundary, some "
+         "each slice from the bitmap and logs (start,end,step). Failover layer: the same query through a failover group of 2-3 bitmap "
+         "servers holding DIFFERENT data (the later ones' bitmaps are the first one's shifted/inverted); every upstream but the last fails some "
+         "slices (per-slice fault table: 503 / connection reset / timeout) and answers the others; the result must be the unsliced evaluation on "
+         "the server whose URI it carries, never a per-slice mix (non-trivial there: >=2 slices and >=2 upstreams saw requests). "
+         "Non-trivial: the request log shows >=2 slices and, at some slice boundary, some "
          "series has a run crossing it, a run ending/starting exactly on it, or a one-sample hole/island adjacent to it. Classes: "
          "layer : start on/off the 2h grid : step divides 2h or not : #slices bucket : boundary relations present.",
     level_text="Generated-input search (rapid, fixed seeds) against an independent reference model: maximal runs of present grid points -> "
